@@ -74,12 +74,14 @@ def gen_doc(rng):
     level = rng.choice([0, 0, 1, 1, 2])
     lines = header + sec + ([""] + footer if footer else [])
     pad = "    " * level
-    body = "\n".join((pad + l) if l else l for l in lines)
+    # blank lines either empty or carrying the indentation (what editors and the emitter with emit_separating_tab write)
+    tabbed = level > 0 and rng.random() < 0.4
+    body = "\n".join((pad + l) if (l or tabbed) else l for l in lines)
     ending = rng.choice(["\n" + pad, "\n", ""])
     doc = ("\n" if rng.random() < 0.8 else "") + body + ending
     return {"doc": doc, "style": style, "level": level, "header_lines": [l for l in header if l],
             "footer_lines": [l.strip() for l in footer if l.strip()], "params": [p[0] for p in params],
-            "has_footer": bool(footer), "footer_kind": footer[0] if footer else None, "ending": ending}
+            "has_footer": bool(footer), "footer_kind": footer[0] if footer else None, "ending": ending, "tabbed_blanks": tabbed}
 
 
 def in_order(needles, lines):
@@ -126,6 +128,17 @@ def impl_case(case):
     except Exception as e:  # noqa
         conv["error"] = type(e).__name__ + ": " + str(e)[:100]
     res["conv"] = conv
+    # ... and through the docstring parser alone (no original_doc_str: the header is what the parser put into ir["doc"])
+    conv2 = {}
+    try:
+        import cdd.docstring.parse
+        for tgt in STYLES:
+            with contextlib.redirect_stderr(io.StringIO()):
+                ir2 = cdd.docstring.parse.docstring(doc)
+                conv2[tgt] = cdd.docstring.emit.docstring(ir2, docstring_format=tgt)
+    except Exception as e:  # noqa
+        conv2["error"] = type(e).__name__ + ": " + str(e)[:100]
+    res["conv2"] = conv2
     return res
 
 
@@ -185,6 +198,21 @@ def worker(batch):
                 out["items"].append({"cls": "C15/header-lost/%s->%s" % (c["style"], tgt),
                                      "clause": "a header prose line is missing (or out of order) after conversion",
                                      "case": c, "detail": {"missing": missing, "converted": conv[tgt]}})
+        conv2 = v.get("conv2") or {}
+        if "error" in conv2:
+            out["items"].append({"cls": "C15/convert-raises/docstring-parser/%s/%s" % (c["style"], conv2["error"].split(":")[0]),
+                                 "clause": "conversion raised", "case": c, "detail": conv2["error"]})
+        for tgt in STYLES:
+            if tgt not in conv2:
+                continue
+            ol = [l.strip() for l in conv2[tgt].split("\n")]
+            if in_order([x.strip() for x in c["header_lines"]], ol):
+                out["conv_ok"] += 1
+            else:
+                missing = [x for x in c["header_lines"] if x.strip() not in ol]
+                out["items"].append({"cls": "C15/header-lost/docstring-parser/%s->%s%s" % (c["style"], tgt, "/with-footer" if c["has_footer"] else ""),
+                                     "clause": "a header prose line is missing (or out of order) after conversion through the docstring parser",
+                                     "case": c, "detail": {"missing": missing, "converted": conv2[tgt]}})
         # P3: no prose line absorbed into a type or default
         prose = [x.strip() for x in c["header_lines"] + c["footer_lines"] if len(x.strip()) > 6]
         for name, (typ, dflt) in list((v.get("ir_params") or {}).items()) + [("return", v.get("ir_return") or [None, None])]:
